@@ -168,7 +168,34 @@ def run(ctx: Ctx):
                         ctx.violation("a discarded reading's innovation was not recorded", {"definition": job["defn"], "inputs": p, "sensor": key}, key="discard-not-recorded")
     defs_text, checks, src, dist = ekf.analyse(ctx, jobs, res, "C06", do_predict=False, do_update=True)
     ekf.run_coq(ctx, jobs, res, defs_text, checks, src, "update with filtering")
-    ctx.cov["input_distribution"] = {"decision_cases": kinds, "whole_filter_updates": dist["updates"], "whole_filter_rejected": n_rej}
+    # ---------------- whole-filter runs of the compiled generated C++ filter, thresholds with many significant digits:
+    # same decision as the Python filter, emitted constant = configured constant, a discarded reading leaves the
+    # estimate alone and its innovation is recorded
+    from lib import cppcheck, cppjobs
+    cjobs = cppjobs.make_jobs(ctx, 6 if ctx.tier == "quick" else 60, n_points=3, ks=(0.5, 3.1415926535, 0.7071067811865476, 1.0), min_sensors=1, max_sensors=2)
+    cpres = ctx.run_impl_jobs("ekf_py.py", cjobs)
+    ccres = ctx.run_impl_jobs("cpp_gen.py", cjobs)
+    n_cpp_rej = 0
+    for job, c, p in zip(cjobs, ccres, cpres):
+        if "error" in p:
+            continue
+        if "error" in c or not c.get("compile_ok") or not c.get("run_ok"):
+            ctx.violation("the C++ filter with innovation filtering could not be generated / compiled / run: " + str(c.get("error") or c.get("compile_err") or "")[-300:],
+                          {"definition": job["defn"], "k": job["k"]}, key="cpp-missing")
+            continue
+        cppcheck.compare_with_python(ctx, job, c, p)
+        for pt, run, py in zip(job["points"], c["runs"], p["points"]):
+            for key in job["defn"]["sensors"]:
+                u = py["updates"].get(key) or {}
+                if u.get("decision"):
+                    n_cpp_rej += 1
+                    if run.get(f"inn/{key}/has") != 1.0:
+                        ctx.violation(f"generated C++ filter: the innovation of a discarded reading of sensor {key!r} is not recorded",
+                                      {"definition": job["defn"], "inputs": pt, "sensor": key, "k": job["k"]}, key="cpp-discard-not-recorded")
+    dist["cpp_whole_filter_jobs"] = len(cjobs)
+    dist["cpp_rejected_updates"] = n_cpp_rej
+    ctx.cov["input_distribution"] = {"decision_cases": kinds, "whole_filter_updates": dist["updates"], "whole_filter_rejected": n_rej,
+                                     "cpp_whole_filter_jobs": dist.get("cpp_whole_filter_jobs"), "cpp_rejected_updates": dist.get("cpp_rejected_updates")}
     return ("decision cases: for m in {1,2,3,4,5,9} and 8 thresholds k, NIS placed exactly at the binary64 threshold and 1,2,3 ulp below/above "
             "(S^-1 = diag(v,1,..), z = e1: exact in any summation order), dense exactly-representable cases, random dyadic cases, disabled setting; "
             "decided by python.remove_innovation and by the compiled innovation_filtering.h; oracle: exact rational comparison away from the boundary, "
